@@ -111,6 +111,12 @@ FLAVOURS = {
     "noslack": dict(cc="gcc", cflags=["-O2", "-fPIC"], noslack=True),
     "o0": dict(cc="gcc", cflags=["-O0", "-fPIC"], noslack=False),
     "o3": dict(cc="gcc", cflags=["-O3", "-fPIC"], noslack=False),
+    # link-time-optimisation builds of the library for the secure-erase matrix (C18): the archive holds LTO objects
+    "lto_O0": dict(cc="gcc", cflags=["-O0", "-flto"], noslack=False, ar="gcc-ar"),
+    "lto_O1": dict(cc="gcc", cflags=["-O1", "-flto"], noslack=False, ar="gcc-ar"),
+    "lto_O2": dict(cc="gcc", cflags=["-O2", "-flto"], noslack=False, ar="gcc-ar"),
+    "lto_O3": dict(cc="gcc", cflags=["-O3", "-flto"], noslack=False, ar="gcc-ar"),
+    "lto_Os": dict(cc="gcc", cflags=["-Os", "-flto"], noslack=False, ar="gcc-ar"),
     "asan": dict(cc="clang", cflags=["-O1", "-g", "-fno-omit-frame-pointer", "-fsanitize=address,undefined",
                                       "-fno-sanitize-recover=undefined", "-fno-sanitize=alignment"], noslack=False),
 }
@@ -168,7 +174,7 @@ def _build_flavour(name, outdir, srcs):
         jobs.append([fl["cc"]] + fl["cflags"] + COMMON + _includes(shadow) + ["-c", os.path.join(REPO, s), "-o", o])
     _compile_many(jobs)
     lib = os.path.join(outdir, "libsafec.a")
-    _run(["ar", "rcs", lib] + objs)
+    _run([fl.get("ar", "ar"), "rcs", lib] + objs)
     for o in objs:
         os.unlink(o)
     return lib
